@@ -96,6 +96,15 @@ pub enum Event {
     ListDuplicate { index: usize },
     ListOtherBeacon { beacon: u64 },
     ListTruncateBytes { permille: u32 },
+    /// root-preserving shift: an entry whose name is a path alias of a certified file
+    /// (`./00000.chunk`, `x/00004.secondary` ...) is added at the front (or back) of the name
+    /// order, every certified name gets the digest of its successor (predecessor) and the last
+    /// (first) certified name is dropped: the sequence of digests in name order, hence the
+    /// Merkle root, is unchanged, the name -> digest assignment is shifted by one
+    ListShift { front: bool, alias_prefix: String },
+    /// a hostile mirror that serves what the hostile list promises: every file whose name the
+    /// list carries gets the certified content that hashes to the digest the list gives it
+    DirFollowList,
     // operations
     Verify { range: RangeCfg, allow_missing: bool },
     Redownload { range: RangeCfg },
@@ -120,6 +129,8 @@ impl Event {
             Event::ListDuplicate { .. } => "list_entry_duplicated",
             Event::ListOtherBeacon { .. } => "list_from_other_beacon",
             Event::ListTruncateBytes { .. } => "list_bytes_truncated",
+            Event::ListShift { .. } => "list_shifted_behind_path_alias",
+            Event::DirFollowList => "directory_follows_served_list",
             Event::Verify { .. } => "verify",
             Event::Redownload { .. } => "redownload",
         }
@@ -138,6 +149,9 @@ type DigestList = Vec<(String, String)>;
 
 pub struct World<'a> {
     node: &'a ClientNode,
+    /// this execution's own client: nothing a client keeps between calls leaks from one trace
+    /// execution into the next (a fresh process replaying the trace sees the same)
+    client: mithril_client::Client,
     cfg: Config,
     scratch: Scratch,
     /// certified model: name -> sha256 hex of the honest content (own computation)
@@ -312,6 +326,7 @@ impl<'a> World<'a> {
         };
         let mut w = World {
             node,
+            client: client::build_client(node),
             cfg: cfg.clone(),
             scratch,
             model,
@@ -374,7 +389,7 @@ impl<'a> World<'a> {
             self.materialise();
         }
         self.node.dl.begin(StepPlan::default());
-        let db = self.node.client.cardano_database_v2();
+        let db = self.client.cardano_database_v2();
         let options = DownloadUnpackOptions { allow_override: true, include_ancillary: false, max_parallel_downloads: 1 };
         let r = self
             .node
@@ -482,6 +497,38 @@ impl<'a> World<'a> {
                 }
             }
             Event::ListTruncateBytes { permille } => self.list_truncate = Some(*permille),
+            Event::ListShift { front, alias_prefix } => {
+                let mut sorted = self.list.clone();
+                sorted.sort();
+                let k = sorted.len();
+                if k >= 2 {
+                    let digests: Vec<String> = sorted.iter().map(|e| e.1.clone()).collect();
+                    let mut out: DigestList = Vec::with_capacity(k);
+                    if *front {
+                        out.push((format!("{alias_prefix}{}", sorted[0].0), digests[0].clone()));
+                        for i in 0..k - 1 {
+                            out.push((sorted[i].0.clone(), digests[i + 1].clone()));
+                        }
+                    } else {
+                        for i in 1..k {
+                            out.push((sorted[i].0.clone(), digests[i - 1].clone()));
+                        }
+                        out.push((format!("{alias_prefix}{}", sorted[k - 1].0), digests[k - 1].clone()));
+                    }
+                    self.list = out;
+                }
+            }
+            Event::DirFollowList => {
+                let by_digest: BTreeMap<String, Vec<u8>> =
+                    self.honest.iter().map(|(_, bytes)| (common::sha256_hex(bytes), bytes.clone())).collect();
+                for (name, digest) in self.list.clone() {
+                    if self.model.contains_key(&name)
+                        && let Some(bytes) = by_digest.get(&digest)
+                    {
+                        self.dir.insert(name, bytes.clone());
+                    }
+                }
+            }
             Event::Verify { .. } | Event::Redownload { .. } => {}
         }
         (hash_dir(&self.dir), hash_list(&self.list, self.list_truncate)) != before
@@ -507,7 +554,7 @@ impl<'a> World<'a> {
         }
         std::fs::write(&file, bytes).expect("write digest artifact");
         self.node.dl.begin(StepPlan::default());
-        let db = self.node.client.cardano_database_v2();
+        let db = self.client.cardano_database_v2();
         let r = self
             .node
             .rt
@@ -542,7 +589,7 @@ impl<'a> World<'a> {
                 trusted_differs = true;
             }
             self.materialise();
-            let db = self.node.client.cardano_database_v2();
+            let db = self.client.cardano_database_v2();
             let proof = self.node.rt.block_on(db.verify_cardano_database(
                 &self.certificate,
                 &self.message,
@@ -910,7 +957,7 @@ fn gen_fault(rng: &mut Rng, cfg: &Config) -> Event {
     let all: Vec<String> = (0..=beacon + 1).flat_map(common::trio_names).collect();
     let n = cert.len();
     let f = |rng: &mut Rng| rng.pick(&cert).clone();
-    match rng.weighted(&[3, 3, 2, 3, 6, 5, 3, 4, 2, 2, 2, 2, 1, 1, 1, 1]) {
+    match rng.weighted(&[3, 3, 2, 3, 6, 5, 3, 4, 2, 2, 2, 2, 1, 1, 1, 1, 2, 1]) {
         0 => Event::BitFlip { file: f(rng), permille: rng.below(1000) as u32, bit: rng.below(8) as u8 },
         1 => Event::Truncate { file: f(rng), permille: rng.below(1000) as u32 },
         2 => Event::ZeroFill { file: f(rng) },
@@ -940,9 +987,11 @@ fn gen_fault(rng: &mut Rng, cfg: &Config) -> Event {
         }
         8 => {
             let i = rng.index(n);
-            let to = match rng.below(3) {
+            let to = match rng.below(5) {
                 0 => unpadded(&cert[i]),
                 1 => rng.pick(&all).clone(),
+                2 => format!("./{}", cert[i]),
+                3 => format!("{}/{}", rng.pick(&["x", "immutable", "..", "/abs"]), cert[i]),
                 _ => format!("{:05}.chunk", beacon + 7),
             };
             Event::ListRename { index: i, to }
@@ -961,7 +1010,13 @@ fn gen_fault(rng: &mut Rng, cfg: &Config) -> Event {
         }
         13 => Event::ListDuplicate { index: rng.index(n) },
         14 => Event::ListOtherBeacon { beacon: rng.range(0, beacon + 1) },
-        _ => Event::ListTruncateBytes { permille: rng.below(1000) as u32 },
+        15 => Event::ListTruncateBytes { permille: rng.below(1000) as u32 },
+        16 => {
+            let front = rng.chance(0.5);
+            let alias_prefix = if front { *rng.pick(&["./", "/", ".//", "-/", "+", " "]) } else { *rng.pick(&["x/", "immutable/", "~/", "a/../", "z"]) };
+            Event::ListShift { front, alias_prefix: alias_prefix.to_string() }
+        }
+        _ => Event::DirFollowList,
     }
 }
 
@@ -987,6 +1042,23 @@ fn generate_sampled(rng: &mut Rng) -> (Config, Vec<Event>) {
     let mut trace = Vec::new();
     let fault_free = rng.chance(0.15);
     let rounds = 1 + rng.weighted(&[5, 3, 1]);
+    // the same client often verifies the genuine restore first (whatever it keeps from that
+    // call is there when it verifies the tampered directory)
+    if rng.chance(0.4) {
+        trace.push(Event::Verify { range: restore_range.clone(), allow_missing: false });
+    }
+    // sometimes the mirror and the served list lie together: a root-preserving shift of the
+    // list, a directory that holds what the shifted list promises, and a verification of a
+    // range that avoids the dropped name
+    let coherent_attack = !fault_free && trios >= 3 && rng.chance(0.12);
+    if coherent_attack {
+        let front = rng.chance(0.5);
+        let alias_prefix = if front { *rng.pick(&["./", "/", ".//", "-/"]) } else { *rng.pick(&["x/", "immutable/", "~/"]) };
+        trace.push(Event::ListShift { front, alias_prefix: alias_prefix.to_string() });
+        trace.push(Event::DirFollowList);
+        let range = if front { RangeCfg::UpTo(rng.range(0, beacon - 1)) } else { RangeCfg::From(rng.range(1, beacon)) };
+        trace.push(Event::Verify { range, allow_missing: rng.chance(0.5) });
+    }
     for round in 0..rounds {
         if !fault_free {
             for _ in 0..rng.weighted(&[1, 5, 4, 2, 1]) {
